@@ -65,7 +65,9 @@ def oracle_violated(s1, s2, s3):
     return FACTOR_DEN * (s3 - s2) > FACTOR_NUM * (s2 - s1)
 
 
-COUNTERS = ("parser-calls", "all-python-calls")
+COUNTERS = ("parser-calls", "all-python-calls", "calls-of-one-function", "bulk-container-items")
+FUNC_EXCESS_MIN = 24  # calls over the oracle's allowance before one function's count matters
+BULK_EXCESS_MIN = 64  # container items over the allowance
 
 
 def eval_family(kind, key, sizes, exact=False):
@@ -83,10 +85,14 @@ def eval_family(kind, key, sizes, exact=False):
     steps, totals, outs = [], [], []
     runs = 0
     res = {"kind": kind, "key": key, "status": "linear", "window": None, "decided_by": None}
+    detail = kind != "pair"  # single-construct families: per-function counts and bulk items too
+    per_funcs = []
     for i, size in enumerate(sizes):
         text = family_text(kind, key, size)
+        pf = {} if detail else None
+        per_funcs.append(pf)
         if i < 2:
-            o, s, t = F.measure_both(text, cap=STEP_CAP, cap_total=2 * STEP_CAP)
+            o, s, t = F.measure_both(text, cap=STEP_CAP, cap_total=2 * STEP_CAP, per_func=pf)
             runs += 1
             if i == 0 and o == "ok":
                 # both counters must be functions of the text: once more; for
@@ -102,7 +108,7 @@ def eval_family(kind, key, sizes, exact=False):
         else:
             b1 = steps[-1] + (FACTOR_NUM * (steps[-1] - steps[-2])) // FACTOR_DEN
             b2 = totals[-1] + (FACTOR_NUM * (totals[-1] - totals[-2])) // FACTOR_DEN
-            o, s, t = F.measure_both(text, cap=b1, cap_total=b2)
+            o, s, t = F.measure_both(text, cap=b1, cap_total=b2, per_func=pf)
             runs += 1
             if o == "cap":
                 res["decided_by"] = COUNTERS[0] if s > b1 else COUNTERS[1]
@@ -140,6 +146,42 @@ def eval_family(kind, key, sizes, exact=False):
                     res["decided_by"] = name
                     break
             if res["status"] == "superlinear":
+                break
+    if detail and res["status"] == "linear" and len(steps) >= 3:
+        # (3) every single function's own call count must obey the oracle: a
+        # quadratic term with a small coefficient (one extra call per name per
+        # closing brace, one extra walk per nesting level) disappears in the
+        # total at these sizes but not in the count of the function that loops
+        worst = None
+        for w in range(len(steps) - 2):
+            a, b, c = per_funcs[w], per_funcs[w + 1], per_funcs[w + 2]
+            for fn, c3 in c.items():
+                c1, c2 = a.get(fn, 0), b.get(fn, 0)
+                excess = (c3 - c2) - FACTOR_NUM * (c2 - c1) / FACTOR_DEN
+                if excess >= FUNC_EXCESS_MIN and (worst is None or excess > worst[0]):
+                    worst = (excess, fn, w, [c1, c2, c3])
+            if worst:
+                break
+        if worst:
+            res.update(status="superlinear", window=worst[2], decided_by=COUNTERS[2],
+                       function=worst[1], function_calls=worst[3], origin=[worst[1]])
+    if detail and res["status"] == "linear" and len(steps) >= 3:
+        # (4) items moved by builtin bulk container operations called from
+        # parser code (dict(x), x.copy(), x.clear(), sorted(x), ...)
+        bulk, callers = [], []
+        for size in sizes[: len(steps)]:
+            o, n, by = F.measure_bulk(family_text(kind, key, size))
+            runs += 1
+            bulk.append(n)
+            callers.append(by)
+        res["bulk"] = bulk
+        for w in range(len(bulk) - 2):
+            c1, c2, c3 = bulk[w : w + 3]
+            if (c3 - c2) - FACTOR_NUM * (c2 - c1) / FACTOR_DEN >= BULK_EXCESS_MIN:
+                by = callers[w + 2]
+                top = max(by, key=lambda k: by[k]) if by else "?"
+                res.update(status="superlinear", window=w, decided_by=COUNTERS[3], origin=[top],
+                           bulk_callers=by)
                 break
     res["sizes"] = list(sizes[: len(steps)])
     res["steps"] = steps
@@ -193,7 +235,7 @@ def _work(task):
             funcs = {}
             F.measure(family_text(kind, key, r["sizes"][0]), cap=STEP_CAP, funcs=funcs)
             r["funcs"] = sorted(funcs)
-        if r["status"] == "superlinear" and want_origin:
+        if r["status"] == "superlinear" and want_origin and not r.get("origin"):
             w = r["window"]
             r["origin"] = origin_functions(kind, key, r["sizes"][w : w + 3], r["decided_by"])
         out.append(r)
@@ -548,6 +590,8 @@ def signature(r, single_sig):
             for c in key:
                 if c in single_sig:
                     return single_sig[c]
+        if r.get("decided_by") == COUNTERS[3]:
+            return "bulk-copy:" + "+".join(r["origin"])
         if r.get("origin"):
             return "origin:" + "+".join(r["origin"])
         if kind == "rep":
@@ -572,7 +616,15 @@ def describe(r):
     if r["status"] == "superlinear":
         w = r["window"]
         d["decided_by_counter"] = r["decided_by"]
-        s = (r["totals"] if r["decided_by"] == COUNTERS[1] else r["steps"])[w : w + 3]
+        if r["decided_by"] == COUNTERS[2]:
+            d["function"] = r.get("function")
+            s = r.get("function_calls") or r["steps"][w : w + 3]
+        elif r["decided_by"] == COUNTERS[3]:
+            d["bulk_container_items"] = r.get("bulk")
+            d["bulk_items_by_calling_function_at_largest_size"] = r.get("bulk_callers")
+            s = r["bulk"][w : w + 3]
+        else:
+            s = (r["totals"] if r["decided_by"] == COUNTERS[1] else r["steps"])[w : w + 3]
         d["violating_window_sizes"] = r["sizes"][w : w + 3]
         d["marginal_costs"] = [s[1] - s[0], s[2] - s[1]]
         d["allowed_last_marginal"] = FACTOR_NUM * (s[1] - s[0]) / FACTOR_DEN
@@ -981,9 +1033,16 @@ def replay(rep):
     if r["status"] == "superlinear":
         w = r["window"]
         print("decided by counter:", r["decided_by"])
-        s = (r["totals"] if r["decided_by"] == COUNTERS[1] else r["steps"])[w : w + 3]
+        if r["decided_by"] == COUNTERS[2]:
+            print("function:", r["function"])
+            s = r["function_calls"]
+        elif r["decided_by"] == COUNTERS[3]:
+            print("bulk container items:", r["bulk"], "by calling function:", r.get("bulk_callers"))
+            s = r["bulk"][w : w + 3]
+        else:
+            s = (r["totals"] if r["decided_by"] == COUNTERS[1] else r["steps"])[w : w + 3]
         print(f"expected: s({r['sizes'][w + 2]})-s({r['sizes'][w + 1]}) <= 2.5*(s({r['sizes'][w + 1]})"
               f"-s({r['sizes'][w]})) = {2.5 * (s[1] - s[0]):.0f}; observed: {s[2] - s[1]}")
-        print("origin functions:", origin_functions(kind, key, r["sizes"][w : w + 3], r["decided_by"]))
+        print("origin functions:", r.get("origin") or origin_functions(kind, key, r["sizes"][w : w + 3], r["decided_by"]))
     print("verdict:", r["status"])
     return 0 if r["status"] in ("linear", "rec") else 1
